@@ -7,3 +7,8 @@ import MtailVerif.Props.C25
 #print axioms MtailVerif.C25.runtime_error_counted
 #print axioms MtailVerif.C25.loader_skeletons
 #print axioms MtailVerif.C25.exec_skeletons
+#print axioms MtailVerif.C25.f_vm_vm_skeletons
+#print axioms MtailVerif.C25.f_runtime_runtime_skeletons
+#print axioms MtailVerif.C25.f_mtail_mtail_skeletons
+#print axioms MtailVerif.C25.f_logstream_reader_skeletons
+#print axioms MtailVerif.C25.f_tailer_tail_skeletons
